@@ -2,7 +2,7 @@
    instance names the function to run. *)
 From Coq Require Import List ZArith.
 Import ListNotations.
-From V Require Import Valid.Run Model.RunC13 Model.Edits2 Model.IterHier Model.BytecodeRun Model.Serial Model.Render.
+From V Require Import Valid.Run Model.RunC13 Model.Edits2 Model.IterHier Model.BytecodeRun Model.Serial Model.Render Model.RunSrc.
 Local Open Scope Z_scope.
 
 Definition run_any (rows : list (list Z)) : list Z :=
@@ -13,6 +13,8 @@ Definition run_any (rows : list (list Z)) : list Z :=
   | [109] :: rest => run_c09 rest
   | [115] :: rest => run_c15 rest
   | [117] :: rest => run_c17 rest
+  | [108] :: rest => run_c08 rest
+  | [110] :: rest => run_c10 rest
   | [100] :: rest => run_instance rest
   | _ => run_instance rows
   end.
